@@ -38,7 +38,8 @@ CFG = {
                   "clusters): F111 (Print/Wrap put a cluster wider than the rest of the window's row on its last column; it was displayed beyond the window) is FIXED in /repo 05ee32f "
                   "(Witness/F111.lean keeps the old loop and shows both behaviours). Round 4: the primitives are interpreted, not only pinned — Props/C11Body: setCell_body_eq_model / setStyle_body_eq_model / "
                   "screen_put_body_eq_model (Win.put, Screen.setCell, Screen.setStyle = the guards, delegation calls and assignments extracted from window.go / screen.go on this run, evaluated; "
-                  "an unknown disjunct rejects, an unknown call is none). Known finding: F111b (a struct-literal child reaching beyond its parent's right edge accepts a wide cluster on the parent's last column — "
+                  "an unknown disjunct rejects, an unknown call is none), showCursor_body_eq_model / origin_body_eq_model / fill_body_eq_model / clear_body_eq_model (Window.ShowCursor, Origin, Fill, Clear run from their regenerated skeletons "
+                  "= cursorPos / Win.origin / fillOps). Known finding: F111b (a struct-literal child reaching beyond its parent's right edge accepts a wide cluster on the parent's last column — "
                   "hypothesis rightNested of text_extent_clip, shown necessary; left to the application as window.go documents; its general form is SetCell with a wide cell on a window's last column — the repair in SetCell was evaluated in round 4 and is not safe: "
                   "C14's paint oracle and C16 alarm on the repaired code, literal child windows carry no Vx; notes/C11.md) . F111c (Wrap's line segmentation could end inside a grapheme cluster: a flag that begins a later "
                   "Segment, space + combining mark) is FIXED in /repo 1f9a9ad; oracle 'clusters of the line segments = clusters of the Segment text' (the line segments are a parameter of the model, computed by the harness with Wrap's own loop). Validated by correspondence only: that the Lean transcription of the loops equals the Go loops "
